@@ -111,7 +111,8 @@ Tx3 == Sub({"h1", "h2", "h3"})
 Tx4 == Sub({"h1", "h2", "h6", "h6b"})
 Tx5 == Sub({"h1", "h2", "h3", "h4", "h5"})
 TxDrops == Sub({"h3", "h4", "h5"})
-TxSame == Sub({"h2", "h6", "h6b"})
+TxSame == Sub({"h6", "h6b"})
+TxModes == Sub({"h2", "h6"})        \* both paid by b: affordable together at head 1, not at head 2
 Heads2 == SubSeq(UHeads, 1, 2)
 Heads3 == UHeads
 
